@@ -145,6 +145,7 @@ type path struct {
 	mapOrderPred value // harness closure func(any) bool selecting map entries whose order is a choice
 	forkSites map[string]int
 	panicAt   string
+	failedIDs map[string]bool
 
 	q0, qs0, qu0, qk0 int
 	t0                time.Duration
@@ -680,6 +681,20 @@ func (p *path) model() (map[string]uint64, bool) {
 	return out, true
 }
 
+// assertFalse records a concretely false assertion once per id; it reports
+// whether the path should stop (too many distinct failures).
+func (p *path) assertFalse(id string) bool {
+	if p.failedIDs == nil {
+		p.failedIDs = map[string]bool{}
+	}
+	if !p.failedIDs[id] {
+		p.failedIDs[id] = true
+		m, mok := p.model()
+		p.addViolation("assert", id, "assertion false on this path at "+p.site(), m, mok)
+	}
+	return len(p.failedIDs) > 40
+}
+
 func (p *path) addViolation(kind, id, detail string, model map[string]uint64, ok bool) {
 	tags := map[string]string{}
 	for k, v := range p.tags {
@@ -888,9 +903,10 @@ func callVerifAPI(fr *frame, name string, args []value) (res value, ok bool) {
 		switch c := args[0].(type) {
 		case bool:
 			if !c {
-				m, mok := p.model()
-				p.addViolation("assert", id, "assertion false on this path at "+p.site(), m, mok)
-				panic(pathEnd{"violation", id})
+				if p.assertFalse(id) {
+					panic(pathEnd{"violation", id})
+				}
+				return nil, true
 			}
 			p.qsimplified++
 		case sym:
@@ -1015,9 +1031,11 @@ func callVerifAPI(fr *frame, name string, args []value) (res value, ok bool) {
 				p.qsimplified++
 				return nil, true
 			}
-			m, mok := p.model()
-			p.addViolation("assert", id, "assertion false on this path at "+p.site(), m, mok)
-			panic(pathEnd{"violation", id})
+			if p.assertFalse(id) {
+				panic(pathEnd{"violation", id})
+			}
+			// keep going: later assertions (of other properties sharing the harness) are still evaluated
+			return nil, true
 		case sym:
 			if c.t.IsTrue() {
 				p.qsimplified++
@@ -1233,6 +1251,15 @@ func RunPath(job *Job) (res PathResult) {
 			switch r := r.(type) {
 			case pathEnd:
 				status, detail = r.status, r.detail
+				if r.status == "budget" || r.status == "deadlock" {
+					// a hang of the target: a candidate violation with a concrete witness
+					m, ok := p.model()
+					id := "instruction-budget"
+					if r.status == "deadlock" {
+						id = "deadlock"
+					}
+					p.addViolation(r.status, id, r.detail, m, ok)
+				}
 			case targetPanic:
 				status, detail = "panic", "panic: "+panicString(r.v)
 				m, ok := p.model()
@@ -1259,6 +1286,9 @@ func RunPath(job *Job) (res PathResult) {
 	}()
 	killGoroutines()
 
+	if status == "ok" && len(p.violations) > 0 {
+		status = "violation"
+	}
 	res.Status, res.Detail = status, detail
 	res.Decisions = p.dec
 	res.Siblings = p.siblings
